@@ -105,7 +105,8 @@ func (r *recorder) run(text string, doc interface{}, reps int, canary string) {
 	}
 	for rep := 0; rep < reps; rep++ {
 		before := encodeValue(doc)
-		o := direct(func() (interface{}, error) { return jp.Search(doc) })
+		var o Obs
+		enters := recordEnters(func() { o = direct(func() (interface{}, error) { return jp.Search(doc) }) })
 		after := encodeValue(doc)
 		obs := obsTagged(o)
 		if o.Kind == "ok" {
@@ -127,7 +128,10 @@ func (r *recorder) run(text string, doc interface{}, reps int, canary string) {
 				after = []interface{}{"str", stringToCps("☃canary")}
 			}
 		}
-		ln := r.emit(map[string]interface{}{"op": "Search", "h": r.h, "doc": before, "docAfter": after, "obs": obs})
+		if enters == nil {
+			enters = []string{}
+		}
+		ln := r.emit(map[string]interface{}{"op": "Search", "h": r.h, "doc": before, "docAfter": after, "obs": obs, "enter": enters})
 		if isCanary != "" {
 			r.canaries = append(r.canaries, map[string]interface{}{"line": ln, "kind": isCanary})
 		}
